@@ -87,6 +87,13 @@ fn run_op(ctx: &Ctx, ch: &Channel, name: &str, chan: u16, seq: u32) -> (String, 
                 Err(e) => (format!("Err({})", err_name(&e)), want),
             }
         }
+        "purge_then_closed" => {
+            // the server answers the purge and closes the channel right behind the reply (one
+            // transmission): the call gets its reply, the next call the server's close
+            let r1 = ch.queue_purge("close-after-reply").map_err(|e| err_name(&e));
+            let r2 = ch.queue_purge("q").map_err(|e| err_name(&e));
+            (format!("{:?} then {:?}", r1, r2), expected_only(name, chan, seq).1)
+        }
         "declare_nowait" => (format!("{:?}", ch.queue_declare_nowait("nw", QueueDeclareOptions::default()).map(|q| q.name().to_string()).map_err(|e| err_name(&e))), "Ok(\"nw\")".into()),
         "purge_nowait" => (format!("{:?}", ch.queue_purge_nowait("q").map_err(|e| err_name(&e))), "Ok(())".into()),
         "bind_nowait" => (format!("{:?}", ch.queue_bind_nowait("q", "x", "k", FieldTable::new()).map_err(|e| err_name(&e))), "Ok(())".into()),
@@ -107,6 +114,7 @@ fn expected_only(name: &str, chan: u16, seq: u32) -> ((), String) {
         "purge" | "delete" => format!("{:?}", Ok::<u32, String>(a)),
         "consume_cancel" => format!("tag ctag-{}-{} cancel Ok(()) last Ok(\"ClientCancelled\")", chan, seq),
         "get_msg" => format!("Ok(Some(({}, {}, \"body-{}-{}\")))", a, b, chan, seq),
+        "purge_then_closed" => format!("{:?} then {:?}", Ok::<u32, String>(a), Err::<u32, String>(format!("ServerClosedChannel({},406,PRECONDITION_FAILED - after the reply)", chan))),
         "handle_ops" => format!("declared (Some(0), Some(0)) purge {:?} get Ok(None) delete {:?}", Ok::<u32, String>(StdBroker::reply_values(chan, seq + 1).0), Ok::<u32, String>(StdBroker::reply_values(chan, seq + 3).0)),
         "qos" | "recover" | "bind" | "confirm" | "declare_nowait" | "purge_nowait" | "bind_nowait" | "delete_nowait" | "publish" => "Ok(())".to_string(),
         "get_empty" => "Ok(None)".to_string(),
@@ -141,6 +149,8 @@ impl Scenario for Rpc {
             json!({"programs": [["consume_srv_cancel", "purge"], ["declare", "consume_srv_cancel"]], "hold": false}),
             json!({"programs": [["get_msg", "purge"], ["get_empty", "get_msg"], ["declare", "get_msg"]], "hold": true}),
             json!({"programs": [["handle_ops", "purge"], ["purge", "handle_ops"]], "hold": true}),
+            json!({"programs": [["purge", "purge_then_closed"], ["declare", "purge"], ["purge", "declare"]], "hold": true}),
+            json!({"programs": [["purge_then_closed"], ["declare", "purge", "delete"]], "hold": false}),
             // channel ids closed and opened again (explicitly and by the allocator, channel_max 2)
             // before the calls: a reply must still find the channel that asked
             json!({"programs": [["declare", "purge"], ["purge", "declare"]], "hold": true, "reuse": "ab"}),
@@ -256,7 +266,12 @@ impl Scenario for Rpc {
                             }
                         }
                         let r = ch.close();
-                        ctx.log(format!("chclose -> {}", res(&r)));
+                        if prog.last().map(|s| s.as_str()) == Some("purge_then_closed") {
+                            // (the server has closed this channel: its own close cannot succeed)
+                            ctx.log(format!("chclose -> {}", if r.is_err() { "Ok" } else { "Ok although the server had closed the channel" }));
+                        } else {
+                            ctx.log(format!("chclose -> {}", res(&r)));
+                        }
                     }));
                 }
                 for a in actors {
@@ -638,7 +653,9 @@ impl Scenario for PubWire {
     fn variants(&self, _tier: &str) -> Vec<Value> {
         // cancel: channel 1 also has a consumer, which the server cancels at any point; the client's
         // CancelOk belongs to channel 1's frames and must not split a message
-        vec![json!({"stall": null}), json!({"stall": 400}), json!({"stall": 5000}), json!({"stall": null, "cancel": true})]
+        // (chmax: the server's channel_max - no limit, and a limit just above frame_max; the body
+        // frames are cut by frame_max whatever the other negotiated numbers are)
+        vec![json!({"stall": null}), json!({"stall": 400}), json!({"stall": 5000}), json!({"stall": null, "cancel": true}), json!({"stall": null, "chmax": 0}), json!({"stall": 400, "chmax": 4097})]
     }
     fn bound(&self, tier: &str, _p: &Value) -> usize {
         if tier == "thorough" {
@@ -652,7 +669,7 @@ impl Scenario for PubWire {
     }
     fn build(&self, p: &Value) -> Built {
         let mut hs = Handshake::default();
-        hs.tune = (2047, 4096, 0);
+        hs.tune = (p["chmax"].as_u64().unwrap_or(2047) as u16, 4096, 0);
         let mut broker = StdBroker::new(hs);
         let cancel = p["cancel"] == true;
         if cancel {
@@ -1051,6 +1068,13 @@ impl Scenario for Wire {
                 json!({"stall": 400, "bound": 16, "menu": lim, "server_close": true}),
             ]);
         }
+        // the one frame the I/O thread composes from data it does not control: the Close of a
+        // client-side exception quotes the offending frame; long names of multi-byte characters
+        // at both alignments of the 255-byte limit
+        for k in 0..2 {
+            v.push(json!({"stall": null, "bound": 16, "menu": 2, "server_close": true, "exception": k}));
+        }
+        v.push(json!({"stall": 400, "bound": 16, "menu": 2, "server_close": true, "exception": 0}));
         v
     }
     fn bound(&self, tier: &str, p: &Value) -> usize {
@@ -1065,7 +1089,12 @@ impl Scenario for Wire {
     }
     fn build(&self, p: &Value) -> Built {
         let mut broker = StdBroker::new(Handshake::default());
-        if p["server_close"] == true {
+        if let Some(k) = p["exception"].as_u64() {
+            // a method only a client may send, with names that make its description long
+            let name = format!("{}{}", "a".repeat(k as usize), "\u{e9}".repeat(100));
+            let f = AMQPFrame::Method(1, AMQPClass::Basic(basic::AMQPMethod::Publish(basic::Publish { ticket: 0, exchange: name.clone(), routing_key: "\u{4e16}\u{754c}".repeat(20), mandatory: false, immediate: false })));
+            broker.pushes.push(Push::new("conn-close", vec![f]).after_frames(6));
+        } else if p["server_close"] == true {
             broker.pushes.push(Push::new("conn-close", vec![conn_close_frame(320, "bye")]).after_frames(6));
         }
         let mut cfg = EnvConfig::default();
@@ -1127,7 +1156,13 @@ impl Scenario for Wire {
         if rest != 0 {
             v.push(("wire:partial-frame".into(), format!("{} trailing bytes", rest)));
         }
-        let server_closed = p["server_close"] == true && o.io_events.iter().any(|e| matches!(e, vh::sim::world::IoEvent::Frame(AMQPFrame::Method(0, AMQPClass::Connection(amq_protocol::protocol::connection::AMQPMethod::Close(_))))));
+        let exception = !p["exception"].is_null();
+        let server_closed = p["server_close"] == true
+            && o.io_events.iter().any(|e| match e {
+                vh::sim::world::IoEvent::Frame(AMQPFrame::Method(0, AMQPClass::Connection(amq_protocol::protocol::connection::AMQPMethod::Close(_)))) => !exception,
+                vh::sim::world::IoEvent::Frame(AMQPFrame::Method(1, AMQPClass::Basic(basic::AMQPMethod::Publish(_)))) => exception,
+                _ => false,
+            });
         for chan in 1..=2u16 {
             let log = o.logs.get(&format!("w{}", chan)).cloned().unwrap_or_default();
             if !server_closed && (log.len() != 6 || log.iter().any(|l| !l.ends_with("-> Ok"))) {
@@ -1186,6 +1221,21 @@ impl Scenario for Wire {
             }
         }
         let main = o.logs.get("main").cloned().unwrap_or_default();
+        if server_closed && exception {
+            if !matches!(main.last().map(|s| s.as_str()), Some("close -> Err(ClientException)")) {
+                v.push(("wire:close".into(), format!("main log {:?}", main)));
+            }
+            // the last frame is the client's Close, whole and well formed, its text within a short string
+            match envs.last().map(|e| (e, e.decode())) {
+                Some((_, Some(AMQPFrame::Method(0, AMQPClass::Connection(amq_protocol::protocol::connection::AMQPMethod::Close(c)))))) if c.reply_text.len() <= 255 && c.reply_code >= 500 => {}
+                // crossing: the client's own Close (200) had been written when the offending
+                // frame arrived; nothing may follow it (C08), the exception has no frame of its own
+                Some((_, Some(AMQPFrame::Method(0, AMQPClass::Connection(amq_protocol::protocol::connection::AMQPMethod::Close(c)))))) if c.reply_code == 200 => {}
+                Some((e, d)) => v.push(("wire:exception-close-frame".into(), format!("the last frame written (channel {} type {} {} bytes) is not a well-formed Connection.Close with a hard-error code: {:?}", e.chan, e.ty, e.payload.len(), d.map(|f| format!("{:?}", f).chars().take(120).collect::<String>())))),
+                None => v.push(("wire:exception-close-frame".into(), "nothing written".into())),
+            }
+            return v;
+        }
         if server_closed {
             if main.last().map(|s| s.as_str()) != Some("close -> Err(ServerClosedConnection(320,bye))") {
                 v.push(("wire:close".into(), format!("main log {:?}", main)));
